@@ -337,11 +337,22 @@ def main(prop, argv):
 
     # 1. regenerate tables from the current source
     ok, out = regenerate()
-    if not ok:
-        broken.append(('translator', out[-2000:]))
+    translator_out = None if ok else out
     # 2. re-check proofs
     ok, mlog, failed = make_coq()
     relevant = coq_deps('Props/' + prop) | coq_deps('Run/Run' + prop) | {'Props/' + prop}
+    if translator_out is not None:
+        # a generator that no longer recognises the source breaks the tie of the properties whose
+        # proofs or model read its table (the stale table stays on disk for the others)
+        named = re.findall(r'^TRANSLATOR-FAILED (\w+): (.*)$', translator_out, re.M)
+        mine = [m for g, m in named if ('Gen/' + g) in relevant or g == '?']
+        if not named:
+            broken.append(('translator', translator_out[-2000:]))
+        elif mine:
+            broken.append(('translator', '\n'.join(mine)[-2000:]))
+        else:
+            notes.append('translator: a table this property does not read could not be regenerated: '
+                         + '; '.join(g for g, _ in named))
     rel_failed = [f for f in failed if f in relevant]
     if not ok:
         notes.append('make failed for: ' + ', '.join(failed))
